@@ -4,6 +4,7 @@ import (
 	"context"
 	"errors"
 	"fmt"
+	"github.com/segmentio/kafka-go/protocol"
 	"sort"
 	"time"
 
@@ -54,6 +55,22 @@ func queriesScenario(s *Sim, params map[string]string) {
 					Records: []rc.Record{{Offset: off, Timestamp: ts, Value: []byte(fmt.Sprintf("%s/%d/%d|", name, p.ID, off))}}}, 1)
 			}
 		}
+	}
+	// open transactions: the tail of some partitions is not stable yet
+	for _, tn := range topics {
+		for _, p := range cl.Topics[tn].Parts {
+			if n := p.LEO - p.LogStart; n > 0 && t.Intn("txn", 3) == 0 {
+				p.OpenTxn = 1 + int64(t.Intn("txn", int(n)))
+			}
+		}
+	}
+	listOffsetsVer := func(p *Partition) int16 {
+		// the version the leader's ListOffsets exchange is negotiated at
+		v := cl.Broker(p.Leader).Versions[2][1]
+		if lib := protocol.ApiKey(2).MaxVersion(); lib < v {
+			v = lib
+		}
+		return v
 	}
 	ngrp := t.Range("cfg", 1, 3)
 	for gi := 0; gi < ngrp; gi++ {
@@ -184,7 +201,10 @@ func queriesScenario(s *Sim, params map[string]string) {
 					if len(qs) == 0 {
 						break
 					}
-					res, err := client.ListOffsets(ctx, &kafka.ListOffsetsRequest{Topics: req})
+					// (half of the calls read committed: the last offset of a
+					// partition with an open transaction is its last stable offset)
+					iso := kafka.IsolationLevel(t.Intn("work", 2))
+					res, err := client.ListOffsets(ctx, &kafka.ListOffsetsRequest{Topics: req, IsolationLevel: iso})
 					if err != nil {
 						// a total failure is only legitimate if every queried leader is unreachable / failing
 						all := true
@@ -239,8 +259,12 @@ func queriesScenario(s *Sim, params map[string]string) {
 									bad("R1-list-offsets", "Client.ListOffsets: %s[%d] first offset %d, log start %d", x.p.Topic, x.p.ID, got.FirstOffset, x.p.LogStart)
 								}
 							case kafka.LastOffset:
-								if got.LastOffset != x.p.LEO {
-									bad("R1-list-offsets", "Client.ListOffsets: %s[%d] last offset %d, log end %d", x.p.Topic, x.p.ID, got.LastOffset, x.p.LEO)
+								wantLast := x.p.LEO
+								if iso == kafka.ReadCommitted && x.p.OpenTxn > 0 && listOffsetsVer(x.p) >= 2 {
+									wantLast = x.p.LEO - x.p.OpenTxn
+								}
+								if got.LastOffset != wantLast {
+									bad("R1-list-offsets", "Client.ListOffsets (isolation level %d): %s[%d] last offset %d, want %d (log end %d, open transaction over the last %d offsets)", iso, x.p.Topic, x.p.ID, got.LastOffset, wantLast, x.p.LEO, x.p.OpenTxn)
 								}
 							default:
 								want, _ := x.p.OffsetForTime(x.ts)
